@@ -246,6 +246,36 @@ def build_hand(d: dict) -> Circuit:
         h = add(SL.HadamardLayer(K, len(xs)), xs)
         s = add(S(K, d.get("Ko", 1)), [h])
         return Circuit(layers, ins, [s])
+    if name == "param-logsoftmax":
+        # categorical layer whose logits are log(softmax(theta, axis)) -- the LogSoftmax rewrite target
+        ax = d.get("axis", -1)
+        N = 3
+        sm = Parameter.from_unary(SP.SoftmaxParameter((K, N), axis=ax), TensorParameter(K, N, initializer=NormalInitializer()))
+        lg = Parameter.from_unary(SP.LogParameter((K, N)), sm)
+        a = add(SL.CategoricalLayer(Scope([vid[0]]), K, num_categories=N, logits=lg))
+        b = add(inp(Scope([vid[1]]), K))
+        h = add(SL.HadamardLayer(K, 2), [a, b])
+        s = add(S(K, 1), [h])
+        return Circuit(layers, ins, [s])
+    if name == "param-reducesum-outerprod":
+        # constant layer whose value is reduce_sum(outer_product(p1, p2, axis=oa), axis=ra) -- the einsum rewrite target
+        oa, ra = d.get("outer", 0), d.get("reduce", 1)
+        s1, s2 = (2, 3), (2, 3)
+        s2 = list(s2)
+        s2[oa] = 2 if oa == 1 else 3
+        s2 = tuple(s2)
+        op_ = Parameter.from_binary(
+            SP.OuterProductParameter(s1, s2, axis=oa),
+            TensorParameter(*s1, initializer=NormalInitializer()),
+            TensorParameter(*s2, initializer=NormalInitializer()),
+        )
+        rs = Parameter.from_unary(SP.ReduceSumParameter(op_.shape, axis=ra), op_)
+        Kc = rs.shape[0]
+        c = add(SL.ConstantValueLayer(Kc, log_space=False, value=rs))
+        a = add(input_factory(d.get("input", "embedding"))(Scope([vid[0]]), Kc))
+        h = add(SL.HadamardLayer(Kc, 2), [a, c])
+        s = add(S(Kc, 1), [h])
+        return Circuit(layers, ins, [s])
     if name == "hetero-params":
         # two same-shaped sum layers on one level with different parameter-graph structure
         a, b = add(inp(Scope([vid[0]]), K)), add(inp(Scope([vid[1]]), K))
